@@ -19,7 +19,7 @@ from dataclasses import dataclass, field
 from .model import AnalysisError, FuncInfo, Model, unparse
 from .terms import FALSE, NONE, TRUE, const, show
 
-MAX_STATES = 20000
+MAX_STATES = 60000
 _MISSING = object()
 
 MUTATORS = {"append", "extend", "insert", "pop", "remove", "clear", "reverse", "sort", "update",
